@@ -46,25 +46,28 @@ impl GC {
 
     /// Removes the given object (and everything it refers) from this garbage collector so it is no longer managed by it
     pub fn untrace(&mut self, o: Object) {
-        if let Some(pos) = self
-            .objects
-            .iter()
-            .position(|a| std::ptr::eq(a.as_ptr(), o.as_ptr()))
-        {
-            self.objects.swap_remove(pos);
-            #[cfg(feature = "verif")]
-            crate::verif::gc_event(crate::verif::GcPhase::Untrace, &[&[o]], &self.objects);
+        // Arrays can be nested arbitrarily deep (a = [a] in a loop), so walk them with an explicit
+        // list of objects still to visit instead of recursing on the native stack
+        let mut todo = vec![o];
+        while let Some(o) = todo.pop() {
+            if let Some(pos) = self
+                .objects
+                .iter()
+                .position(|a| std::ptr::eq(a.as_ptr(), o.as_ptr()))
+            {
+                self.objects.swap_remove(pos);
+                #[cfg(feature = "verif")]
+                crate::verif::gc_event(crate::verif::GcPhase::Untrace, &[&[o]], &self.objects);
 
-            if o.tag() == Type::Array {
-                // Safety: We've already checked the type
-                unsafe {
-                    for val in o.as_vec_unchecked() {
-                        self.untrace(*val);
+                if o.tag() == Type::Array {
+                    // Safety: We've already checked the type
+                    unsafe {
+                        todo.extend(o.as_vec_unchecked().iter().rev().copied());
                     }
                 }
-            }
 
-            self.mark_bitmap.truncate(self.objects.len());
+                self.mark_bitmap.truncate(self.objects.len());
+            }
         }
     }
 
@@ -124,56 +127,57 @@ impl GC {
         self.mark_bitmap.truncate(self.objects.len());
     }
 
-    /// Marks the given object as reachable
+    /// Marks the given object, and everything reachable from it, as reachable
     #[inline(always)]
     fn mark(&mut self, o: &Object) {
-        if !o.is_heap_allocated() {
-            return;
-        }
-
-        // Look up the position of this object in the (sorted) vector of managed objects
-        let index = match self
-            .objects
-            .binary_search_by_key(&(o.as_ptr() as usize), |a| a.as_ptr() as usize)
-        {
-            Ok(index) => index,
-            // Not managed by this garbage collector (e.g. the result of an earlier run, which now
-            // belongs to the caller), but the values stored inside of it may be.
-            Err(_) => {
-                if o.tag() == Type::Array && !self.unmanaged_arrays.contains(&(o.as_ptr() as usize)) {
-                    self.unmanaged_arrays.push(o.as_ptr() as usize);
-                    // Safety: we already checked the type.
-                    for v in unsafe { o.as_vec_unchecked() } {
-                        self.mark(v);
-                    }
-                }
-                return;
+        // Arrays can be nested arbitrarily deep (a = [a] in a loop), so the objects still to visit
+        // are kept in an explicit list instead of on the native stack
+        let mut todo: Vec<Object> = vec![*o];
+        while let Some(o) = todo.pop() {
+            if !o.is_heap_allocated() {
+                continue;
             }
-        };
-        debug_assert!(index < self.mark_bitmap.len());
-        #[cfg(feature = "verif")]
-        crate::verif::probe_mark(index, self.mark_bitmap.len());
 
-        if o.tag() == Type::Array {
-            // Safety: we know the size of mark_bitmap.
-            unsafe {
-                // No need to mark recursively on arrays if this one was
-                // already marked (e.g. because the same object was found
-                // in multiple places such as the stack and the result of
-                // a function call).
-                if !self.mark_bitmap.get_unchecked(index) {
-                    self.mark_bitmap.set_unchecked(index, true);
-
-                    // Safety: we already checked the type.
-                    for v in o.as_vec_unchecked() {
-                        self.mark(v);
+            // Look up the position of this object in the (sorted) vector of managed objects
+            let index = match self
+                .objects
+                .binary_search_by_key(&(o.as_ptr() as usize), |a| a.as_ptr() as usize)
+            {
+                Ok(index) => index,
+                // Not managed by this garbage collector (e.g. the result of an earlier run, which now
+                // belongs to the caller), but the values stored inside of it may be.
+                Err(_) => {
+                    if o.tag() == Type::Array && !self.unmanaged_arrays.contains(&(o.as_ptr() as usize)) {
+                        self.unmanaged_arrays.push(o.as_ptr() as usize);
+                        // Safety: we already checked the type.
+                        todo.extend(unsafe { o.as_vec_unchecked() }.iter().copied());
                     }
+                    continue;
                 }
-            }
-        } else {
-            unsafe {
+            };
+            debug_assert!(index < self.mark_bitmap.len());
+            #[cfg(feature = "verif")]
+            crate::verif::probe_mark(index, self.mark_bitmap.len());
+
+            if o.tag() == Type::Array {
                 // Safety: we know the size of mark_bitmap.
-                self.mark_bitmap.set_unchecked(index, true);
+                unsafe {
+                    // No need to look inside an array again if this one was
+                    // already marked (e.g. because the same object was found
+                    // in multiple places such as the stack and the result of
+                    // a function call).
+                    if !self.mark_bitmap.get_unchecked(index) {
+                        self.mark_bitmap.set_unchecked(index, true);
+
+                        // Safety: we already checked the type.
+                        todo.extend(o.as_vec_unchecked().iter().copied());
+                    }
+                }
+            } else {
+                unsafe {
+                    // Safety: we know the size of mark_bitmap.
+                    self.mark_bitmap.set_unchecked(index, true);
+                }
             }
         }
     }
